@@ -36,6 +36,9 @@ try:
         out = p.stdout.decode("utf-8", "replace")
         sigs = [l.strip() for l in out.splitlines() if l.strip().startswith("signature:")]
         status = {0: "MISSED", 1: "caught", 2: "inconclusive/build-failed"}.get(p.returncode, f"exit {p.returncode}")
+        if p.returncode == 1 and "VIOLATION property=" not in out:
+            status = "exit 1 without VIOLATION line (orchestrator fault?)"
+            print(p.stderr.decode("utf-8", "replace")[-1500:], flush=True)
         results.append({"name": m["name"], "status": status, "wall_s": round(time.time() - t0, 1), "signatures": sigs[:4], "expect": m.get("expect", "caught")})
         print(m["name"], status, round(time.time() - t0, 1), sigs[:2], flush=True)
         if p.returncode == 2:
